@@ -121,11 +121,11 @@ PROPS = {
         "assumptions": ["symbol tick counts passed to the assembler are non-decreasing (they are a u64 counter)", "FE: non-SAME audio does not produce two bursts that agree (sampled)"],
     },
     "C01": {
-        "thm": "SameVerif.Thm.C01",
+        "thm": ["SameVerif.Thm.C01", "SameVerif.Thm.Chain"],
         "suites": ["sigc01"],
         "spec_filter": r"^spec\.sig c01 ",
         "technique": "Lean 4 theorems about the discrete chain (sync-word ambiguity, warm-up; digital chain theorem under front-end assumptions) + in-situ correspondence of the link and transport models on tapped real runs + sampled signal-level decoding over the property's line-condition domain",
-        "level_text": "PARTIAL by nature: no theorem is about f32 DSP. Proved in Lean: the sync word is four preamble bytes, every misaligned 32-bit window over the preamble is 8 or 24 bit errors away (never within a budget <= 7), warm-up behaviour; C03/C06/C07 supply the combiner, parser and framer theorems the chain rests on. Tie: for every sampled transmission the real receiver's tapped observation streams are replayed on the Lean link model and transport/receiver model, which must reproduce the real link states and the real event trace, timestamps included. Sampled: complete transmissions over rates 8..96 kHz (standard and arbitrary), amplitude, DC, phase, sub-sample start, +-1 % baud, pause 1 s +-5 %, noise to 20 dB SNR, lead-in, voice gap; the oracle demands exactly [StartOfMessage H, EndOfMessage].",
+        "level_text": "PARTIAL by nature: no theorem is about f32 DSP. Proved in Lean: the sync word is four preamble bytes, every misaligned 32-bit window over the preamble is 8 or 24 bit errors away (never within a budget <= 7), warm-up behaviour; one observed burst is delivered exactly once as payload ++ tail (burst_delivered); and the DIGITAL CHAIN composed end to end (Thm/Chain transmission_decoded): for every canonical header H, if the front end delivers what Spec.BurstObserved says for three bursts of H (acquisition within 90 preamble bits, correct hard decisions and equalizer bytes from there, release after the carrier stops) followed by silence for the hold time, with the three segments inside the history window, the voted link-layer tails free of '-' (F7's condition) and the sample counter within one forced-EOM timeout, then link model -> framer -> assembler -> receiver glue emit EXACTLY ONE message event, a StartOfMessage with text exactly H, offset of '+', zero parity count, voting count 0 or |H|; instantiated on a concrete 3-burst stream (demo_decoded). C03/C06/C07 supply the combiner, parser and framer theorems the chain rests on. Tie: for every sampled transmission the real receiver's tapped observation streams are replayed on the Lean link model and transport/receiver model, which must reproduce the real link states and the real event trace, timestamps included. Sampled: complete transmissions over rates 8..96 kHz (standard and arbitrary), amplitude, DC, phase, sub-sample start, +-1 % baud, pause 1 s +-5 %, noise to 20 dB SNR, lead-in, voice gap; the oracle demands exactly [StartOfMessage H, EndOfMessage].",
         "level_note": "The DSP above the observation boundary (DC block, AGC, matched filters, timing loop, power tracker, equalizer arithmetic) is NOT modelled or proved; it enters as the tapped observation stream. Amplitude domain is [300, 30000] (see DESIGN.md): with normalised +-1 audio and wide gain limits the additive AGC converges too slowly, which the crate documents.",
         "rule": SIG_RULE,
         "exhaustive": False,
